@@ -310,7 +310,7 @@ func startDistribution() {
 		}
 		caselog.Log(map[string]any{"phase": "start-distribution", "upstreams": cf.L, "concurrent": cf.c})
 		hist := make([]int, cf.L)
-		det := 0
+		det, shorts := 0, 0
 		var runs []*caseRun
 		for i := 0; i < calls; i++ {
 			cd := &caseDesc{ID: newID(), Mode: "auto", ULen: cf.L, C: cf.c, Cancel: cancelNone, CtxKind: "cancel", Query: i, QID: uint16(i * 7)}
@@ -322,6 +322,12 @@ func startDistribution() {
 			}
 			c := runCase(cd, fwd, ups)
 			runs = append(runs, c)
+			if c.short {
+				shorts++
+				if shorts >= 3 { // judged by finalize at the quiescent point below
+					break
+				}
+			}
 			if c.start >= 0 {
 				hist[c.start]++
 				det++
